@@ -27,6 +27,10 @@ type c17mCase struct {
 	Del    *ref.DelWitness `json:"del,omitempty"`
 	Public *big.Int        `json:"public"`
 	PlusKR int             `json:"plusKR,omitempty"` // > 0: every 256-bit decomposition that fits is answered with v + k*r (model and circuit alike)
+	// Forge: exactly one packed 256-bit value (ForgeValue) is decomposed as ForgeValue + ForgeK*r on both sides, and the
+	// public input is the hash of the packing that contains that alternative encoding
+	ForgeValue *big.Int `json:"forgeValue,omitempty"`
+	ForgeK     int      `json:"forgeK,omitempty"`
 }
 
 var (
@@ -107,6 +111,32 @@ func genC17m(t *rapid.T) c17mCase {
 	case 2:
 		c.PlusKR = rapid.IntRange(1, 5).Draw(t, "k")
 		c.Class += "+alt-decomposition"
+	case 3, 4:
+		// a forged encoding of ONE packed 256-bit field (a root or a commitment)
+		var fields []packField
+		if c.Mode == "insertion" {
+			fields = insFields(c.Ins)
+		} else {
+			fields = delFields(c.Del)
+		}
+		var cand []int
+		for i, f := range fields {
+			if f.W == 32 {
+				cand = append(cand, i)
+			}
+		}
+		i := cand[rapid.IntRange(0, len(cand)-1).Draw(t, "forge_field")]
+		k := rapid.IntRange(1, 5).Draw(t, "forge_k")
+		x := new(big.Int).Add(fields[i].V, new(big.Int).Mul(ref.R, big.NewInt(int64(k))))
+		for x.BitLen() > 256 {
+			k--
+			x.Sub(x, ref.R)
+		}
+		alt := append([]packField(nil), fields...)
+		alt[i] = packField{32, x}
+		c.Public = packRaw(alt)
+		c.ForgeValue, c.ForgeK = ref.Clone(fields[i].V), k
+		c.Class += fmt.Sprintf("+forged-field%d", i)
 	}
 	return c
 }
@@ -169,6 +199,16 @@ func runC17m(c c17mCase) Result {
 			return digitsOf(x, d)
 		}
 		strat = &HintStrategy{NB: "plus_kr", K: k, N: 256}
+	}
+	if c.ForgeValue != nil {
+		k, target := c.ForgeK, c.ForgeValue
+		m.toBinary = func(v *big.Int, d int) []*big.Int {
+			if d != 256 || v.Cmp(target) != 0 {
+				return nil
+			}
+			return digitsOf(new(big.Int).Add(v, new(big.Int).Mul(ref.R, big.NewInt(int64(k)))), d)
+		}
+		strat = &HintStrategy{NB: "plus_kr", K: k, N: 256, OnlyValue: ref.Clone(target)}
 	}
 	modelOK, err := m.satisfied(def.name, args)
 	m.toBinary = nil
